@@ -372,6 +372,7 @@ pub fn c10_negtwin() {
     };
 }
 // quick tier: up to 6 entries (bounded); thorough tier: the real capacity 18 (complete)
+c10_instance!(cap3, 3);
 c10_instance!(cap6, 6);
 c10_instance!(cap18, 18);
 use cap6::*;
